@@ -291,12 +291,20 @@ def check_run(case, col=None):
     fate = case['fate']
     cmd = command(fate, 'self')
     line = "/bin/sh -c '%s'" % cmd[2]
+    # the same with an event table: EOF as an event key (the loop ends through the callback, not through the EOF
+    # exception), in dict and list form, chosen by the history
+    variant = len(case.get('history') or []) % 3
+    kw = {}
+    if variant == 1:
+        kw['events'] = {pexpect.EOF: (lambda d: True)}
+    elif variant == 2:
+        kw['events'] = [('never-printed-by-the-child', 'x\n'), (pexpect.EOF, (lambda d: True))]
     with guard('run(withexitstatus=True)'):
-        out, status = pexpect.run(line, withexitstatus=True, timeout=20)
+        out, status = pexpect.run(line, withexitstatus=True, timeout=20, **kw)
     ex, sg = truth(fate)
     if status != ex:
-        raise Violation('run-status', 'run(%r, withexitstatus=True) returned status %r, the child %s'
-                        % (line, status, 'exited with %d' % ex if ex is not None else 'was killed by signal %d (exit status None)' % sg))
+        raise Violation('run-status', 'run(%r, withexitstatus=True%s) returned status %r, the child %s'
+                        % (line, ', events with an EOF key' if kw else '', status, 'exited with %d' % ex if ex is not None else 'was killed by signal %d (exit status None)' % sg))
     with guard('run()'):
         out2 = pexpect.run(line, timeout=20)
     if not isinstance(out2, bytes):
